@@ -1,13 +1,15 @@
 (** C05: generic definitions are recovered as generics (source round trip). *)
 From Coq Require Import List NArith String Bool.
 From V Require Import Base.Util Base.Strings Base.Result Model.Registry Model.Settings Model.Subst
-  Model.TypePath Model.Program Checkers.Parse Checkers.Sem Corr.RunTG Corr.CheckTG.
+  Model.TypePath Model.Program Model.ProgramTeq Checkers.Parse Checkers.Sem Corr.RunTG Corr.CheckTG.
 Import ListNotations.
 Open Scope string_scope. Open Scope list_scope.
 
 Record c05_case := mk_c05 {
   c5_prog : program;
   c5_insts : list (nat * list src);     (* every interned closed instantiation *)
+  c5_labels : list (option src);        (* per id: the closed source type the entry stands for ([canon] form;
+                                           None = bit-order marker), as the harness interner registered it *)
   c5_tg : tg_case }.
 
 Definition segs_lead (t : tokens) : list string * bool :=
@@ -134,3 +136,27 @@ Definition known_F16 (c : c05_case) : bool :=
       end
   | _ => false
   end.
+
+(** ** the registry is the registry of the program ([RegistryOf], Model/Program.v)
+
+    [registry_ofb] = [registry_entries_ofb && labels_injectiveb] (Model/Program.v):
+    - [corr_registry_of]: every entry is what scale-info's derive produces for its label, one level
+      of ids (must hold on EVERY case: it ties the interner's entries to the specification; sound for
+      the first two clauses of [RegistryOf] by [C05_registry_entries_ofb_sound]);
+    - [hyp_registry_of]: additionally one id per label, i.e. [registry_ofb] and with it the
+      [RegistryOf] hypothesis of the C05 theorems ([C05_registry_ofb_sound], with
+      [hyp_prelude_nodocs]).  scale-info interns by the TypeId of ONE step of [Identity]: a program
+      mentioning both [Vec<Box<T>>] and [Vec<T>] (or [Box<Vec<T>>] / [Vec<T>], [Option<Box<T>>] /
+      [Option<T>], ..) has two entries for one [canon] label ([hyp_identity_duplicates]); on those
+      cases [RegistryOf] does not hold of the real registry and the theorems say nothing, the
+      run-time checkers are evaluated all the same. *)
+Definition corr_registry_of (c : c05_case) : bool :=
+  registry_entries_ofb (pg_defs (c5_prog c)) (c5_labels c) (tg_reg (c5_tg c)).
+
+Definition hyp_registry_of (c : c05_case) : bool :=
+  registry_ofb (pg_defs (c5_prog c)) (c5_labels c) (tg_reg (c5_tg c)).
+
+Definition hyp_identity_duplicates (c : c05_case) : bool := negb (labels_injectiveb (c5_labels c)).
+
+Definition hyp_prelude_nodocs (c : c05_case) : bool :=
+  prelude_nodocs_b (tg_reg (c5_tg c)).
